@@ -224,7 +224,7 @@ func fieldName(t types.Type, i int) string {
 	if !ok || i >= st.NumFields() {
 		return fmt.Sprintf("f%d", i)
 	}
-	return st.Field(i).Name()
+	return vname(st.Field(i))
 }
 
 func fieldVar(t types.Type, i int) *types.Var {
